@@ -9,6 +9,7 @@ import (
 	"go/token"
 	"go/types"
 	"math"
+	"os"
 	"sort"
 	"strings"
 
@@ -62,6 +63,7 @@ type FuncCtx struct {
 	top      *Frame
 	alloc0   Term
 	allowed  map[string]bool // assigns
+	ghost    map[string]int  // ghost variable -> cell id
 }
 
 func (x *Exec) abort(f string, a ...interface{}) {
@@ -90,6 +92,21 @@ func (x *Exec) safety(st *State, kind string, cond Term, pos token.Pos) {
 	label := x.prog.sourceLine(pos)
 	if label == "" {
 		label = "?"
+	}
+	if fc := x.curFunc; fc != nil && fc.contract != nil && x.curFrame != nil && x.curFrame == fc.top {
+		for _, mf := range fc.contract.MayFail {
+			if strings.Contains(label, mf) {
+				// declared `mayfail`: the failing case is a panic path of its own
+				ps := st.clone()
+				fr := x.curFrame
+				x.branch(func() {
+					ps.assume(Not(cond))
+					x.doPanic(fr, ps, pos, false)
+				})
+				st.assume(cond)
+				return
+			}
+		}
 	}
 	x.oblige(st, kind, label, cond, []string{"C13"}, pos)
 }
@@ -452,6 +469,10 @@ func (x *Exec) frameAllowed(fc *FuncCtx, key string) bool {
 			return true
 		}
 		switch {
+		case strings.HasPrefix(a, "deref "):
+			if parts[0] == "H" && parts[1] == strings.TrimPrefix(a, "deref ") {
+				return true
+			}
 		case strings.HasPrefix(a, "ghost "):
 			if parts[0] == "G" && parts[1] == strings.TrimPrefix(a, "ghost ") {
 				return true
@@ -618,6 +639,7 @@ func (x *Exec) constValue0(c *ssa.Const) Value {
 func (x *Exec) run(fr *Frame, st *State, b *ssa.BasicBlock, pred *ssa.BasicBlock, i int) {
 	for ; i < len(b.Instrs); i++ {
 		ins := b.Instrs[i]
+		x.curFrame = fr
 		switch v := ins.(type) {
 		case *ssa.DebugRef:
 			continue
@@ -760,12 +782,46 @@ func (x *Exec) jump(fr *Frame, st *State, from, to *ssa.BasicBlock) {
 	x.run(fr, st, to, from, 0)
 }
 
+// doPanic: the path panics at pos. Deferred calls run; a deferred recover() turns the panic into
+// a normal return through the function's recover block. A panic that escapes the function under
+// verification is an obligation (unreachable) unless its contract says `panics may`.
 func (x *Exec) doPanic(fr *Frame, st *State, pos token.Pos, explicit bool) {
-	fc := x.curFunc
-	if fc.contract == nil || fc.contract.Panics != "may" {
-		x.oblige(st, "panic", x.prog.sourceLine(pos), TFalse, []string{"C13"}, pos)
+	st.panicking = true
+	if st.panicVal == nil {
+		tag := x.freshConst(st, "panicval.tag", SInt)
+		st.assume(Gt(tag, TZero))
+		st.panicVal = &IfaceV{Tag: tag, Data: x.freshConst(st, "panicval.data", SInt)}
 	}
-	x.endPath(st, "panic")
+	st.panicPos = pos
+	x.unwind(fr, st)
+}
+
+func (x *Exec) unwind(fr *Frame, st *State) {
+	x.runDefers(fr, st, func(st2 *State) {
+		if !st2.panicking {
+			// recovered in this frame: the function returns normally with its named results
+			if fr.fn.Recover != nil {
+				x.run(fr, st2, fr.fn.Recover, nil, 0)
+				return
+			}
+			var zs []Value
+			rs := fr.fn.Signature.Results()
+			for i := 0; i < rs.Len(); i++ {
+				zs = append(zs, zeroValue(rs.At(i).Type()))
+			}
+			fr.ret(st2, zs)
+			return
+		}
+		if fr.parent != nil {
+			x.unwind(fr.parent, st2)
+			return
+		}
+		fc := x.curFunc
+		if fc.contract == nil || fc.contract.Panics != "may" {
+			x.oblige(st2, "panic", x.prog.sourceLine(st2.panicPos), TFalse, []string{"C13"}, st2.panicPos)
+		}
+		x.endPath(st2, "panic")
+	})
 }
 
 func (x *Exec) runDefers(fr *Frame, st *State, k func(*State)) {
@@ -839,6 +895,9 @@ func (x *Exec) havocLoop(fr *Frame, st *State, li *loopInfo, run *loopRun) {
 	for _, id := range ids {
 		c := st.cells[id]
 		if c.Alloc != nil && li.modAllocs[c.Alloc] && !c.Mat {
+			if os.Getenv("GOCV_DEBUG") == "2" {
+				fmt.Fprintf(os.Stderr, "loop %d havocs cell %s\n", li.ordinal, c.Name)
+			}
 			nc := *c
 			nc.V = x.symbolic(st, c.Typ, c.Name, false)
 			st.cells[id] = &nc
@@ -901,31 +960,40 @@ func (x *Exec) loopClauses(fr *Frame, li *loopInfo) []*Clause {
 // rangeBound recognises the header of a range-over-slice/int loop in naive SSA
 // (t = *rangeindex; t' = t+1; *rangeindex = t'; if t' < n) and returns the automatic invariant
 // -1 <= rangeindex && rangeindex+1 <= max(n, 0).
-func (x *Exec) rangeBound(fr *Frame, st *State, li *loopInfo) (Term, bool) {
-	h := li.header
+func rangeIndexAlloc(h *ssa.BasicBlock) *ssa.Alloc {
 	if len(h.Instrs) == 0 {
-		return Term{}, false
+		return nil
 	}
 	iff, ok := h.Instrs[len(h.Instrs)-1].(*ssa.If)
 	if !ok {
-		return Term{}, false
+		return nil
 	}
 	cmp, ok := iff.Cond.(*ssa.BinOp)
 	if !ok || cmp.Op != token.LSS {
-		return Term{}, false
+		return nil
 	}
 	add, ok := cmp.X.(*ssa.BinOp)
 	if !ok || add.Op != token.ADD {
-		return Term{}, false
+		return nil
 	}
 	ld, ok := add.X.(*ssa.UnOp)
 	if !ok || ld.Op != token.MUL {
-		return Term{}, false
+		return nil
 	}
 	al, ok := ld.X.(*ssa.Alloc)
 	if !ok || al.Comment != "rangeindex" {
+		return nil
+	}
+	return al
+}
+
+func (x *Exec) rangeBound(fr *Frame, st *State, li *loopInfo) (Term, bool) {
+	h := li.header
+	al := rangeIndexAlloc(h)
+	if al == nil {
 		return Term{}, false
 	}
+	cmp := h.Instrs[len(h.Instrs)-1].(*ssa.If).Cond.(*ssa.BinOp)
 	id, ok := fr.cellOf[al]
 	if !ok {
 		return Term{}, false
